@@ -1520,8 +1520,35 @@ def source_constants(chk, native_bin, drv):
                           % (K, sizes.get(K), ms))
 
 
+def check_props_parallel(area, propfiles, timeout):
+    """vf.coq_check_props for several property files of one area: ONE build of the area, then the Print Assumptions runs of the
+    files side by side (each is a single-threaded coqc).  Returns {propfile: result dict as vf.coq_check_props returns it}."""
+    d = vf.coq_dir(area)
+    forbidden = vf.forbidden_scan(d)
+    ok, out = vf.coq_make(area, timeout=timeout)
+    args = vf.coqproject_args(d)
+
+    def one(pf):
+        r1 = {"ok": False, "theorems": vf.coq_theorems(os.path.join(d, pf)), "assumptions": {}, "log": out[-6000:], "forbidden": forbidden}
+        vo = os.path.join(d, pf[:-2] + ".vo")
+        if ok and os.path.exists(vo) and not forbidden:
+            r1["ok"] = True
+        if os.path.exists(vo):
+            rc, o = vf.sh(["coqc"] + args + [pf], cwd=d, timeout=timeout)
+            r1["assumptions"] = vf.parse_assumptions(o, r1["theorems"])
+            if rc != 0:
+                r1["ok"] = False
+                r1["log"] += "\n" + o[-3000:]
+        return r1
+    with ThreadPoolExecutor(len(propfiles)) as ex:
+        return dict(zip(propfiles, ex.map(one, propfiles)))
+
+
 def main(tier, replay=None):
     chk = vf.Check("C06", tier, "proof")
+    import time as _time
+    _t0 = _time.time()
+    tm = {}
     rng = vf.Rng(spread_seed(chk.seed))
     thr = source_threshold()
     chk.cov["trusted_base"] = [
@@ -1537,7 +1564,7 @@ def main(tier, replay=None):
     ncpu = max(2, min(12, vf.NCPU - 2))
     # 1. proofs + executables, built concurrently (the Coq build dominates)
     with ThreadPoolExecutor(7) as ex:
-        f_coq = ex.submit(vf.coq_check_props, AREA, "Properties.v", 2400)
+        f_coq = ex.submit(check_props_parallel, AREA, ("Properties.v", "PropertiesNative.v"), 2400)
         f_h1 = ex.submit(vf.build_harness, "c06_recint.C", ("-DC06_PART=1",), False, (), 1800, "c06_recint_p1")
         f_h2 = ex.submit(vf.build_harness, "c06_recint.C", ("-DC06_PART=2",), False, (), 1800, "c06_recint_p2")
         f_n = [ex.submit(vf.build_harness, "c06_native.C", ("-DC06_NPART=%d" % i,), False, (), 1800, "c06_native_p%d" % i) for i in (1, 2, 3)]
@@ -1548,14 +1575,16 @@ def main(tier, replay=None):
         hn = [f.result() for f in f_n]
         hcv, lcv = f_cv.result()
     inconclusive = []
-    if not res["ok"] and not res["forbidden"] and "[timeout after" in (res.get("log") or ""):
-        # our own tooling ran out of time (machine load): recorded, not a statement about the property
-        inconclusive.append("the Coq build of coq/C06 timed out; the proofs were not re-checked in this run")
-        chk.cov["obligations"] += len(res["theorems"])
-    else:
-        chk.proof_result(res, AREA)
+    for pf, r1 in res.items():
+        if not r1["ok"] and not r1["forbidden"] and "[timeout after" in (r1.get("log") or ""):
+            # our own tooling ran out of time (machine load): recorded, not a statement about the property
+            inconclusive.append("the Coq build of coq/C06 (%s) timed out; these proofs were not re-checked in this run" % pf)
+            chk.cov["obligations"] += len(r1["theorems"])
+        else:
+            chk.proof_result(r1, AREA, pf)
     binaries = {1: h1, 2: h2, 3: hn[0][0], 4: hn[1][0], 5: hn[2][0], 6: hcv}
     chk.cov["inconclusive_streams"] = inconclusive
+    tm["build_coq_and_harness_s"] = round(_time.time() - _t0, 1)
     drv, l0 = vf.ocaml_build(AREA) if os.path.exists(os.path.join(vf.coq_dir(AREA), "ocaml", "model.ml")) else (None, "extraction did not run")
     if drv is None:
         chk.broke("extracted model driver does not build", l0)
@@ -1598,6 +1627,7 @@ def main(tier, replay=None):
                           "on one of the generated inputs)" % p, err)
             for j, i in enumerate(idx[p]):
                 iout[i] = out[j]
+    tm["implementation_run_s"] = round(_time.time() - _t0, 1)
     midx = [i for i, (v, K, a) in enumerate(cases) if VARIANTS[v]["model"] and i not in NO_MODEL]
     mout = {}
     if drv:
@@ -1609,6 +1639,7 @@ def main(tier, replay=None):
             chk.broke("model driver failed", err)
         else:
             mout = dict(zip(midx, out))
+    tm["model_run_s"] = round(_time.time() - _t0, 1)
     # 3. three-way comparison
     ncorr = 0
     nspec = 0
@@ -1669,6 +1700,8 @@ def main(tier, replay=None):
     chk.cov["branch_hits"] = hits
     chk.cov["expected_branches_not_hit"] = ["%s: %s" % (sp, lab) for sp, lab in EXPECTED_BRANCHES if not hits.get(sp, {}).get(lab)]
     chk.cov["cases_without_model_run"] = len(NO_MODEL)
+    tm["compare_s"] = round(_time.time() - _t0, 1)
+    chk.cov["cumulative_timings"] = tm
     per_form = {}
     for v, K, a in cases:
         per_form[v] = per_form.get(v, 0) + 1
